@@ -125,6 +125,8 @@ func main() {
 		cmdSweep(eng, os.Args[2:])
 	case "mapranges":
 		cmdMapRanges(eng)
+	case "repeat":
+		cmdRepeat(eng)
 	default:
 		fmt.Fprintln(os.Stderr, "unknown command")
 		os.Exit(2)
